@@ -29,7 +29,7 @@ RULE = ("definitions covering every template arm of the 15 non-deprecated derive
 ASSUMPTIONS = ["rustc's real name resolution is modelled only as far as Model/Paths.v goes; the five build configurations are the oracle",
                "user-written tokens (field types, attribute arguments) are told apart by comparing with the paths of the derive input"]
 
-PRELUDE_LOOKALIKES = ["Result", "Ok", "AsRef", "Send", "PhantomData"]
+PRELUDE_LOOKALIKES = ["Result", "Ok", "AsRef", "Send", "PhantomData", "IterGet", "m_matches", "m_assert"]
 DERIVES15 = ["EnumString", "Display", "AsRefStr", "IntoStaticStr", "VariantNames", "VariantArray", "EnumIter", "EnumCount", "FromRepr",
              "EnumTable", "EnumIs", "EnumTryAs", "EnumMessage", "EnumProperty", "EnumDiscriminants"]
 
